@@ -1,3 +1,4 @@
 import AtsimModel.Driver.Pair
 import AtsimModel.Driver.Eam
 import AtsimModel.Driver.Range
+import AtsimModel.Driver.Cutoff
